@@ -450,8 +450,8 @@ def radshock_params(draw, kind):
     """kind in ED, nED, ie"""
     p = {}
     M0 = draw(st.sampled_from([1.2, 1.05, 1.4, 2.0, 3.0])) if kind != 'ie' else draw(st.sampled_from([1.2, 1.4, 2.0]))
-    if kind == 'Sn' and M0 == 3.0:
-        M0 = 1.4          # (the S_n iteration takes 3 min per construction at M0 = 2 and more than 10 min at M0 = 3: not explored)
+    if kind == 'Sn' and M0 >= 2.0:
+        M0 = 1.4          # (the S_n iteration takes 3 min per construction at M0 = 2, with other parameters changed > 30 min, and > 10 min at M0 = 3: not explored)
     p['M0'] = M0
     if draw(st.booleans()):
         p['Tref'] = draw(st.sampled_from([100.0, 50.0, 200.0, 150.0]))
